@@ -17,7 +17,7 @@ type c07bScenario struct {
 }
 
 func genC07B(t *rapid.T) c07bScenario {
-	fan, _ := genFan(t, fanOpts{monotone: true, alwaysRpm: true})
+	fan, _ := genFan(t, fanOpts{monotone: true, alwaysRpm: true, kinds: []string{"hwmon", "hwmon", "hwmon", "file"}}) // 512 cycles per case: no script based fans here
 	fan.RpmAvg0 = 1500
 	return c07bScenario{Fan: fan, Order: rapid.Permutation(seq(0, 255)).Draw(t, "order")}
 }
